@@ -17,19 +17,21 @@ def hexBytes : List Char → List Nat
 def importedFuncs (m : ModuleM) : List (String × String × Nat) :=
   m.imports.filterMap fun i => match i.2.2 with | .func t => some (i.1, i.2.1, t) | _ => none
 
-/-- the interpreter's view of the module; `none` if a body is not well nested -/
+/-- the interpreter's view of a decoded module: uids are positions; `none` if a body is not well
+    nested -/
 def mkEnv (m : ModuleM) : Option Env :=
+  let lt := fun (sg : Sig) (locals : List String) => (sg.1 ++ locals).zipIdx.map fun p => (p.2, p.1)
   let imps : List (Option FuncInfo) := (importedFuncs m).map fun i =>
-    (m.sigs[i.2.2]?).map fun sg => (⟨sg, some (i.1, i.2.1), [], .nil⟩ : FuncInfo)
+    (m.sigs[i.2.2]?).map fun sg => (⟨sg, some (i.1, i.2.1), lt sg [], .nil⟩ : FuncInfo)
   let locs : List (Option FuncInfo) := (m.funcs.zip m.code).map fun p =>
     match m.sigs[p.1]?, structureBody (p.2.2.map (·.1)) with
-    | some sg, some b => some ⟨sg, none, expandLocals p.2.1, b⟩
+    | some sg, some b => some ⟨sg, none, lt sg (expandLocals p.2.1), b⟩
     | _, _ => none
   if m.funcs.length ≠ m.code.length then none else
-  ((imps ++ locs).mapM id).map fun fs => ⟨m.sigs, fs⟩
+  ((imps ++ locs).mapM id).map fun fs => ⟨m.sigs, List.range fs.length, fs⟩
 
 /-- constant expressions: constants, `global.get`, `ref.func`, `ref.null`, integer arithmetic -/
-def evalConst (globals : List V) (c : CExprM) : Option V :=
+def evalConst (FT : List Nat) (globals : List V) (c : CExprM) : Option V :=
   let step := fun (stk : Option (List V)) (o : Op) =>
     match stk with
     | none => none
@@ -38,7 +40,7 @@ def evalConst (globals : List V) (c : CExprM) : Option V :=
       else if o.name = "GlobalGet" then
         (match o.args with | [.ref _ g] => (globals[g]?).map (· :: stk) | _ => none)
       else if o.name = "RefFunc" then
-        (match o.args with | [.ref _ f] => some (.fref (some f) :: stk) | _ => none)
+        (match o.args with | [.ref _ f] => (FT[f]?).map fun u => .fref (some u) :: stk | _ => none)
       else match pureOp o stk with
         | some (.ok s) => some s
         | _ => none
@@ -56,25 +58,25 @@ def memOfTy (t : MemTyM) : Mem :=
 def tabOfTy (t : TableTyM) : Tab :=
   ⟨List.replicate t.min (if t.elem = "externref" then .xref none else .fref none), t.max, t.table64, t.elem = "externref"⟩
 
-def elemItems (globals : List V) (e : ElemM) : Option (List V) :=
+def elemItems (FT : List Nat) (globals : List V) (e : ElemM) : Option (List V) :=
   match e.items with
-  | .funcs fs => some (fs.map fun f => .fref (some f))
-  | .exprs _ es => es.mapM (evalConst globals)
+  | .funcs fs => fs.mapM fun f => (FT[f]?).map fun u => .fref (some u)
+  | .exprs _ es => es.mapM (evalConst FT globals)
 
 /-- instantiate against the canonical host: imported globals get a value derived from their name,
     imported tables and memories arrive at their minimum size, empty -/
-def instantiate (m : ModuleM) (inv : CallFn) : Inst :=
+def instantiate (m : ModuleM) (FT : List Nat) (inv : CallFn) : Inst :=
   let impGlobals : List V := m.imports.filterMap fun i => match i.2.2 with
     | .global g => some (mkTy g.ty (strHash (i.1 ++ "." ++ i.2.1) % 1000))
     | _ => none
   let globals? := m.globals.foldl (fun (acc : Option (List V)) g =>
-    acc.bind fun gs => (evalConst gs g.2).map fun v => gs ++ [v]) (some impGlobals)
+    acc.bind fun gs => (evalConst FT gs g.2).map fun v => gs ++ [v]) (some impGlobals)
   match globals? with
   | none => .fail "unsupported constant expression"
   | some globals =>
     let tabs := (m.imports.filterMap fun i => match i.2.2 with | .table t => some (tabOfTy t) | _ => none) ++ m.tables.map tabOfTy
     let mems := (m.imports.filterMap fun i => match i.2.2 with | .mem t => some (memOfTy t) | _ => none) ++ m.mems.map memOfTy
-    match m.elems.mapM (elemItems globals) with
+    match m.elems.mapM (elemItems FT globals) with
     | none => .fail "unsupported element expression"
     | some items =>
       let st0 : Store := ⟨globals, mems, tabs, m.datas.map (fun d => hexBytes d.bytes.toList), items, [], 0⟩
@@ -86,7 +88,7 @@ def instantiate (m : ModuleM) (inv : CallFn) : Inst :=
           match p.1.mode with
           | .active t off =>
             let ti := t.getD 0
-            (match evalConst st.globals off, st.tabs[ti]?, st.elems[p.2]? with
+            (match evalConst FT st.globals off, st.tabs[ti]?, st.elems[p.2]? with
              | some o, some tb, some vs =>
                if o.payload + vs.length > tb.elems.length then .error "out of bounds table access" else
                let el := tb.elems.take o.payload ++ vs ++ tb.elems.drop (o.payload + vs.length)
@@ -103,7 +105,7 @@ def instantiate (m : ModuleM) (inv : CallFn) : Inst :=
           | .ok st =>
             match p.1.mode with
             | .active mi off =>
-              (match evalConst st.globals off, st.mems[mi]?, st.datas[p.2]? with
+              (match evalConst FT st.globals off, st.mems[mi]?, st.datas[p.2]? with
                | some o, some mm, some bytes =>
                  if o.payload + bytes.length > mm.size then .error "out of bounds memory access" else
                  .ok { st with mems := st.mems.set mi (mm.writeBytes o.payload bytes), datas := st.datas.set p.2 [] }
@@ -115,7 +117,10 @@ def instantiate (m : ModuleM) (inv : CallFn) : Inst :=
           match m.start with
           | none => .ok st2
           | some f =>
-            match inv f [] st2 with
+            match FT[f]? with
+            | none => .fail "start: no such function"
+            | some u =>
+            match inv u [] st2 with
             | .ok _ st3 => .ok st3
             | .trap w _ => .fail ("start trapped: " ++ w)
             | .oog => .fail "start: out of gas"
@@ -142,8 +147,8 @@ def showMem (m : Mem) : String :=
   let cells := (sorted.take 24).map fun p => s!"{p.1}={p.2}"
   s!"pages={m.pages} nonzero={sorted.length} digest={digest} " ++ join "," cells
 
-def showTabEntry (FS : List Sig) : V → String
-  | .fref (some f) => match FS[f]? with | some sg => "func(" ++ sigText sg ++ ")" | none => "dangling"
+def showTabEntry (US : List Sig) : V → String
+  | .fref (some u) => match US[u]? with | some sg => "func(" ++ sigText sg ++ ")" | none => "dangling"
   | v => showV v
 
 def insertStr (x : String × String × Nat) : List (String × String × Nat) → List (String × String × Nat)
@@ -151,44 +156,45 @@ def insertStr (x : String × String × Nat) : List (String × String × Nat) →
   | y :: r => if x.1 ≤ y.1 then x :: y :: r else y :: insertStr x r
 
 /-- exported state: every exported global, memory and table, by export name -/
-def showState (m : ModuleM) (FS : List Sig) (st : Store) : String :=
+def showState (m : ModuleM) (US : List Sig) (st : Store) : String :=
   let ex := m.exports.foldr insertStr []
   join " " (ex.filterMap fun e =>
-    if e.2.1 = "g" then (st.globals[e.2.2]?).map fun v => s!"{e.1}:g={showTabEntry FS v}"
+    if e.2.1 = "g" then (st.globals[e.2.2]?).map fun v => s!"{e.1}:g={showTabEntry US v}"
     else if e.2.1 = "m" then (st.mems[e.2.2]?).map fun mm => s!"{e.1}:m=[{showMem mm}]"
-    else if e.2.1 = "t" then (st.tabs[e.2.2]?).map fun tb => s!"{e.1}:t=[" ++ join "," (tb.elems.map (showTabEntry FS)) ++ "]"
+    else if e.2.1 = "t" then (st.tabs[e.2.2]?).map fun tb => s!"{e.1}:t=[" ++ join "," (tb.elems.map (showTabEntry US)) ++ "]"
     else none)
 
 /-- run the script: `rounds` passes over the exported functions in name order, arguments drawn from
     `seed`; state carries over from call to call; stop at the first out-of-gas / unsupported outcome -/
-def runCalls (FS : List Sig) (inv : CallFn) : List (String × Nat × Nat) → Store → List String → List String × Store
+def runCalls (FT : List Nat) (US : List Sig) (inv : CallFn) : List (String × Nat × Nat) → Store → List String → List String × Store
   | [], st, acc => (acc.reverse, st)
   | (name, f, sd) :: rest, st, acc =>
-    match FS[f]? with
+    match (FT[f]?).bind fun u => (US[u]?).map fun sg => (u, sg) with
     | none => ((s!"{name}: no such function" :: acc).reverse, st)
-    | some sg =>
+    | some (u, sg) =>
       let args := sg.1.zipIdx.map fun p => argFor (sd + p.2 * 7919) p.1
       let hdr := name ++ "(" ++ join "," (args.map showV) ++ ")"
-      match inv f args st with
-      | .ok rs st' => runCalls FS inv rest st' ((hdr ++ "=>" ++ join "," (rs.map (showTabEntry FS))) :: acc)
-      | .trap w st' => runCalls FS inv rest st' ((hdr ++ "=>trap:" ++ w) :: acc)
+      match inv u args st with
+      | .ok rs st' => runCalls FT US inv rest st' ((hdr ++ "=>" ++ join "," (rs.map (showTabEntry US))) :: acc)
+      | .trap w st' => runCalls FT US inv rest st' ((hdr ++ "=>trap:" ++ w) :: acc)
       | .oog => (((hdr ++ "=>out-of-gas") :: acc).reverse, st)
       | .unsup w => (((hdr ++ "=>unsupported:" ++ w) :: acc).reverse, st)
 
-/-- the observation, given the signatures of the function index space and the meaning of a call -/
-def observeWith (m : ModuleM) (FS : List Sig) (inv : CallFn) (seed rounds : Nat) : String :=
-  match instantiate m inv with
+/-- the observation, given the function index ↦ uid table, the signatures by uid and the meaning of
+    a call (by uid) -/
+def observeWith (m : ModuleM) (FT : List Nat) (US : List Sig) (inv : CallFn) (seed rounds : Nat) : String :=
+  match instantiate m FT inv with
   | .fail w => "instantiate: " ++ w
   | .ok st0 =>
     let exf := (m.exports.filter (·.2.1 = "f")).foldr insertStr []
     let script : List (String × Nat × Nat) := (List.range rounds).flatMap fun r =>
       exf.zipIdx.map fun p => (p.1.1, p.1.2.2, lcg (seed + r * 104729 + p.2 * 1299709))
-    let (lines, st) := runCalls FS inv script st0 []
-    "instantiate: ok; " ++ join "; " lines ++ "; trace: " ++ join " " st.trace.reverse ++ "; state: " ++ showState m FS st
+    let (lines, st) := runCalls FT US inv script st0 []
+    "instantiate: ok; " ++ join "; " lines ++ "; trace: " ++ join " " st.trace.reverse ++ "; state: " ++ showState m US st
 
 def observe (m : ModuleM) (seed rounds gas : Nat) : String :=
   match mkEnv m with
   | none => "ill-formed"
-  | some E => observeWith m E.fsigs (invoke E gas) seed rounds
+  | some E => observeWith m E.ftab E.usigs (invoke E gas) seed rounds
 
 end Walrus.Sem
